@@ -10,9 +10,13 @@
    and instantiated here.
 
    Full statements: C10_failure_never_returns, C10_return_means_complete,
-   C10_raise_is_clean, C10_exit_clean_if_lock_free,
-   C10_stuck_only_by_dead_owner, C10_observe_allowed, C10_moves_bounded.
-   Refuted (D8, the known finding): C10_death_in_lock_refuted.
+   C10_run_always_clean (any fault kind, any schedule: never stuck, always
+   completable, clean end, mapped class), C10_raise_is_clean,
+   C10_exit_clean_if_lock_free, C10_stuck_only_by_dead_owner,
+   C10_observe_allowed, C10_moves_bounded, C10_second_run_is_first.
+   Regression corpus (D8, repaired by the forced release in _run_mp's
+   finally): C10_legacy_death_in_lock_refuted - the same model WITHOUT that
+   release ([F_legacy]) hangs the second run / the first run.
    Not proved here (runtime, see evidence assumptions): process teardown,
    signal delivery and the pool's breakage detection are the runtime's; the
    model's "bounded" is a bound on the number of moves, wall-clock time is
@@ -35,6 +39,11 @@ Proof. vm_compute. reflexivity. Qed.
 Theorem C10_stops_in_finally : f_fin_res F = true /\ f_fin_info F = true.
 Proof. vm_compute. split; reflexivity. Qed.
 
+(* _run_mp's finally releases the store lock unconditionally BEFORE it joins
+   the helper threads (D8's repair) *)
+Theorem C10_force_release_first : f_fin_free F = true.
+Proof. vm_compute. reflexivity. Qed.
+
 (* execute(): UnicodeDecodeError is re-raised, anything else that happens
    inside the try leaves as FileSearchException (handler ORDER matters: the
    table is scanned in source order) *)
@@ -56,7 +65,8 @@ Proof. vm_compute. split; reflexivity. Qed.
 Theorem C10_main_mapping : forall e,
   main_class F e = if String.eqb e E_BPP then E_FSE else e.
 Proof.
-  exact (main_class_sound F (proj1 C10_pool_tables_ok) (proj2 C10_pool_tables_ok)).
+  exact (main_class_sound F C10_facts_ok (proj1 C10_pool_tables_ok)
+                          (proj2 C10_pool_tables_ok)).
 Qed.
 
 Theorem C10_submit_mapping : submit_class F = E_FSE.
@@ -102,6 +112,34 @@ Theorem C10_return_means_complete : forall c st co sched,
   s_pc s = MReturn ->
   s_fired s = false /\ forall t, t < ntasks c -> s_futs s t = FOk.
 Proof. exact (top_return_means_complete F C10_facts_ok). Qed.
+
+(* THE property, for the code as it is now: any tasks, any worker count >= 1,
+   any fault plan (task exception or abrupt worker exit at any point, or
+   none), any schedule: the run is never stuck, can always be driven to its
+   end; at the end both helper threads are joined, no worker and no manager
+   is left, both locks are free and the next run starts exactly like a first
+   run; an exception leaving run() has the mapped class
+   (FileSearchException for a dead worker); a fired fault never ends in a
+   normal return *)
+Theorem C10_run_always_clean : forall c sched,
+  1 <= c_workers c ->
+  let s := run F c sched (init c None None) in
+  (final s = false -> can_move F c s) /\
+  ~ stuck F c s /\
+  (final s = true -> clean_end c s) /\
+  (forall e, s_pc s = MRaised e ->
+     s_fired s = true /\
+     exists p, c_plan c = Some p /\
+       match p_kind p with
+       | KRaise e0 => e = expected_class F c p e0
+       | KExit => e = E_FSE
+       end) /\
+  (s_fired s = true -> s_pc s <> MReturn) /\
+  (exists sched', final (run F c (sched ++ sched') (init c None None)) = true).
+Proof.
+  exact (fun c sched =>
+           top_run_always_clean F C10_facts_ok c sched C10_force_release_first).
+Qed.
 
 (* kind = Raise (or no fault), any tasks, any worker count >= 1, any schedule:
    no lock is ever orphaned; some actor can always move until run() ends;
@@ -149,12 +187,22 @@ Theorem C10_first_run_stuck_only_by_store_lock : forall c sched,
   stuck F c s -> dead_ownerb s (s_store s) = true.
 Proof. exact (top_fresh_stuck_is_store F C10_facts_ok). Qed.
 
-(* an abrupt exit INSIDE a locked region always orphans the lock *)
-Theorem C10_exit_in_lock_orphans : forall c sched p r,
+(* the code before D8's repair: the same facts without the forced release *)
+Definition F_legacy : facts :=
+  mkFacts (f_handlers F) (f_inner F) (f_outer F) (f_fin_res F) (f_fin_info F)
+          false.
+Lemma legacy_facts_ok : facts_ok F_legacy = true.
+Proof. vm_compute. reflexivity. Qed.
+
+(* legacy: an abrupt exit INSIDE a locked region always orphaned the lock *)
+Theorem C10_legacy_exit_in_lock_orphans : forall c sched p r,
   c_plan c = Some p -> p_kind p = KExit -> p_j p = Some r ->
-  let s := run F c sched (init c None None) in
+  let s := run F_legacy c sched (init c None None) in
   s_fired s = true -> dead_ownerb s (s_store s) = true.
-Proof. exact (top_exit_in_lock_orphans F C10_facts_ok). Qed.
+Proof.
+  exact (fun c sched p r =>
+           top_exit_in_lock_orphans F_legacy legacy_facts_ok c sched p r eq_refl).
+Qed.
 
 (* a run makes a bounded number of moves, whatever the schedule *)
 Theorem C10_moves_bounded : forall c st co, lock_init st -> lock_init co ->
@@ -200,8 +248,9 @@ Definition mk (pt : option (nat * point * kind)) (ib rb : nat) : cfg :=
              let '(i, j) := point_pos AL SY SO 1 2 x in Some (mkPlan t i j k)
          | None => None
          end) ib rb.
-Definition go (c : cfg) (n : nat) : state :=
-  run F c (rep n (actors c)) (init c None None).
+Definition gof (f : facts) (c : cfg) (n : nat) : state :=
+  run f c (rep n (actors c)) (init c None None).
+Definition go := gof F.
 
 Definition cleanb (c : cfg) (s : state) : bool :=
   match s_info s, s_res s with IDone, RDone => true | _, _ => false end
@@ -246,6 +295,21 @@ Example C10_example_undecodable :
   s_fired s = true /\ s_pc s = MRaised E_UDE /\ cleanb c s = true.
 Proof. vm_compute. repeat split; reflexivity. Qed.
 
+(* a worker exits INSIDE preallocate's locked region while the info thread
+   is about to poll the lock, resp. OUTSIDE any lock while the pool then
+   terminates the sibling inside one: FileSearchException, clean end *)
+Example C10_example_exit_inside_lock_is_clean :
+  let c := mk (Some (0, PtAllocInside, KExit)) 1 1 in
+  let s := go c 40 in
+  s_fired s = true /\ s_pc s = MRaised E_FSE /\ cleanb c s = true.
+Proof. vm_compute. repeat split; reflexivity. Qed.
+
+Example C10_example_sibling_terminated_in_lock_is_clean :
+  let c := mk (Some (0, PtLine, KExit)) 1 1 in
+  let s := go c 40 in
+  s_fired s = true /\ s_pc s = MRaised E_FSE /\ cleanb c s = true.
+Proof. vm_compute. repeat split; reflexivity. Qed.
+
 Example C10_example_exit_lock_free :
   let c := mk (Some (0, PtBeforeOpen, KExit)) 0 1 in
   let s := go c 30 in
@@ -266,14 +330,14 @@ Proof. vm_compute. repeat split; reflexivity. Qed.
    from the finally and a task exception leaves the info thread running;
    drop the BrokenProcessPool handlers and the raw class escapes *)
 Example C10_finally_matters :
-  let F' := mkFacts (f_handlers F) (f_inner F) (f_outer F) true false in
+  let F' := mkFacts (f_handlers F) (f_inner F) (f_outer F) true false true in
   let c := mk (Some (1, PtLine, KRaise "RuntimeError")) 1 1 in
   let s := run F' c (rep 60 (actors c)) (init c None None) in
   s_pc s = MRaised E_FSE /\ s_info s <> IDone /\ s_info s <> INotStarted.
 Proof. vm_compute. repeat split; discriminate. Qed.
 
 Example C10_handlers_matter :
-  let F' := mkFacts (f_handlers F) [] [] true true in
+  let F' := mkFacts (f_handlers F) [] [] true true true in
   let c := mk (Some (0, PtBeforeOpen, KExit)) 0 1 in
   let s := run F' c (rep 30 (actors c)) (init c None None) in
   s_pc s = MRaised E_BPP.
@@ -288,13 +352,13 @@ Example C10_sync_position_matters :
   main_class F (raise_class F c 0 i "RuntimeError") = "RuntimeError"%string.
 Proof. vm_compute. reflexivity. Qed.
 
-(* ------------------------------------------------ D8: the known finding *)
+(* ---------------------------------- D8 (repaired): regression corpus *)
 Lemma plain_mk : plain_cfg (mk None 1 1).
 Proof. repeat split; vm_compute; try reflexivity; repeat constructor. Qed.
 
-(* The full property ("the same process can afterwards run further
-   searches") is FALSE of the faithful model when a process dies owning the
-   store lock:
+(* WITHOUT the forced release in the finally ([F_legacy], the code before
+   commit "a worker that dies holding the results store lock must not block
+   later searches") the property is FALSE of the model:
    (1) a worker exits inside preallocate's locked region: run 1 raises
        FileSearchException and is otherwise clean, but the lock keeps its
        dead owner; then NO fault-free second run of any configuration ever
@@ -303,22 +367,22 @@ Proof. repeat split; vm_compute; try reflexivity; repeat constructor. Qed.
        sibling is terminated by the broken pool inside one;
    (3) if the info thread asks for the store lock before it is told to stop,
        the FIRST run deadlocks too (main waits in info_thread.stop()). *)
-Theorem C10_death_in_lock_refuted :
+Theorem C10_legacy_death_in_lock_refuted :
   (exists c sched,
-     let s1 := run F c sched (init c None None) in
+     let s1 := run F_legacy c sched (init c None None) in
      (exists p r, c_plan c = Some p /\ p_kind p = KExit /\ p_j p = Some r) /\
      s_pc s1 = MRaised E_FSE /\ dead_ownerb s1 (s_store s1) = true /\
-     (forall c2, plain_cfg c2 -> doomed F c2 (restart s1 c2)) /\
+     (forall c2, plain_cfg c2 -> doomed F_legacy c2 (restart s1 c2)) /\
      (exists c2 sched2, plain_cfg c2 /\
-        stuck F c2 (run F c2 sched2 (restart s1 c2)))) /\
+        stuck F_legacy c2 (run F_legacy c2 sched2 (restart s1 c2)))) /\
   (exists c sched,
-     let s1 := run F c sched (init c None None) in
+     let s1 := run F_legacy c sched (init c None None) in
      (exists p, c_plan c = Some p /\ p_kind p = KExit /\ p_j p = None) /\
      s_pc s1 = MRaised E_FSE /\ dead_ownerb s1 (s_store s1) = true /\
-     (forall c2, plain_cfg c2 -> doomed F c2 (restart s1 c2))) /\
+     (forall c2, plain_cfg c2 -> doomed F_legacy c2 (restart s1 c2))) /\
   (exists c sched,
-     let s1 := run F c sched (init c None None) in
-     stuck F c s1 /\ s_pc s1 = MJoinInfo PFin (Some E_FSE) /\
+     let s1 := run F_legacy c sched (init c None None) in
+     stuck F_legacy c s1 /\ s_pc s1 = MJoinInfo PFin (Some E_FSE) /\
      s_info s1 = IWantStore /\ dead_ownerb s1 (s_store s1) = true).
 Proof.
   split; [|split].
@@ -328,17 +392,17 @@ Proof.
     split; [eexists; eexists; vm_compute; repeat split; reflexivity|].
     split; [vm_compute; reflexivity|].
     assert (D : dead_ownerb
-                  (run F (mk (Some (0, PtAllocInside, KExit)) 0 1)
+                  (run F_legacy (mk (Some (0, PtAllocInside, KExit)) 0 1)
                        (rep 30 (actors (mk (Some (0, PtAllocInside, KExit)) 0 1)))
                        (init (mk (Some (0, PtAllocInside, KExit)) 0 1) None None))
                   (s_store
-                     (run F (mk (Some (0, PtAllocInside, KExit)) 0 1)
+                     (run F_legacy (mk (Some (0, PtAllocInside, KExit)) 0 1)
                        (rep 30 (actors (mk (Some (0, PtAllocInside, KExit)) 0 1)))
                        (init (mk (Some (0, PtAllocInside, KExit)) 0 1) None None)))
                 = true) by (vm_compute; reflexivity).
     split; [exact D|].
     split.
-    + intros c2 Hp. apply (top_second_run_doomed F); assumption.
+    + intros c2 Hp. apply (top_second_run_doomed F_legacy); assumption.
     + exists (mk None 1 1). exists (rep 20 (actors (mk None 1 1))).
       split; [exact plain_mk|]. apply stuckb_sound. vm_compute. reflexivity.
   - exists (mk (Some (0, PtLine, KExit)) 0 1).
@@ -347,16 +411,16 @@ Proof.
     split; [eexists; vm_compute; repeat split; reflexivity|].
     split; [vm_compute; reflexivity|].
     assert (D : dead_ownerb
-                  (run F (mk (Some (0, PtLine, KExit)) 0 1)
+                  (run F_legacy (mk (Some (0, PtLine, KExit)) 0 1)
                        (rep 30 (actors (mk (Some (0, PtLine, KExit)) 0 1)))
                        (init (mk (Some (0, PtLine, KExit)) 0 1) None None))
                   (s_store
-                     (run F (mk (Some (0, PtLine, KExit)) 0 1)
+                     (run F_legacy (mk (Some (0, PtLine, KExit)) 0 1)
                        (rep 30 (actors (mk (Some (0, PtLine, KExit)) 0 1)))
                        (init (mk (Some (0, PtLine, KExit)) 0 1) None None)))
                 = true) by (vm_compute; reflexivity).
     split; [exact D|].
-    intros c2 Hp. apply (top_second_run_doomed F); assumption.
+    intros c2 Hp. apply (top_second_run_doomed F_legacy); assumption.
   - exists (mk (Some (0, PtAllocInside, KExit)) 1 1).
     exists (rep 30 (actors (mk (Some (0, PtAllocInside, KExit)) 1 1))).
     cbv zeta.
@@ -372,9 +436,10 @@ Print Assumptions C10_return_means_complete.
 Print Assumptions C10_raise_is_clean.
 Print Assumptions C10_exit_clean_if_lock_free.
 Print Assumptions C10_stuck_only_by_dead_owner.
-Print Assumptions C10_exit_in_lock_orphans.
+Print Assumptions C10_run_always_clean.
+Print Assumptions C10_legacy_exit_in_lock_orphans.
 Print Assumptions C10_moves_bounded.
 Print Assumptions C10_second_run_is_first.
 Print Assumptions C10_observe_allowed.
 Print Assumptions C10_orphaned_lock_dooms_next_run.
-Print Assumptions C10_death_in_lock_refuted.
+Print Assumptions C10_legacy_death_in_lock_refuted.
